@@ -35,6 +35,7 @@ pub const A_CONVERT: u32 = 1 << 19;
 pub const A_BORROWED: u32 = 1 << 20;
 pub const A_EXTEND_HUGE_HINT: u32 = 1 << 21;
 pub const A_CAPACITY_HUGE: u32 = 1 << 22;
+pub const A_PEEK_MUT: u32 = 1 << 23;
 
 pub const A_CORE: u32 = A_PUSH | A_PUSH_INCDEC | A_CHANGE | A_CHANGE_BY | A_REMOVE | A_POP | A_POP_IF;
 pub const A_BULK: u32 = A_RETAIN | A_RETAIN_MUT | A_ITER_MUT | A_EXTEND | A_APPEND | A_CLEAR_DRAIN | A_CONVERT;
@@ -232,6 +233,11 @@ pub fn gen_ops(cfg: &Cfg, double: bool, m: &Model, back_offered: bool, out: &mut
     if payload_mode {
         for &hi in ends {
             out.push(Op::PeekMut { hi, payload: PAYLOAD_B });
+        }
+    } else if a & A_PEEK_MUT != 0 {
+        // addresses the element peek reported; rewrites the payload it already has
+        for &hi in ends {
+            out.push(Op::PeekMut { hi, payload: 0 });
         }
     }
     if a & A_POP_IF != 0 {
